@@ -273,3 +273,68 @@ func findingsText(p *core.Program, s *flow.Site) string {
 	}
 	return strings.Join(parts, "; ")
 }
+
+// servingUnit finds, for a CLI command, the function that calls target (server.Run): the action itself or an in-repo
+// function it (transitively, statically) calls — start commands may share one "serve until interrupted" helper. It returns
+// the unit, the call, and the call in the action through which the unit is reached (nil when the unit is the action).
+func servingUnit(ix *funcIndex, c cliCommand, target *types.Func) (flow.FuncUnit, *ast.CallExpr, *ast.CallExpr) {
+	find := func(u flow.FuncUnit) *ast.CallExpr {
+		var out *ast.CallExpr
+		info := u.Pkg.TypesInfo
+		ast.Inspect(u.Node, func(n ast.Node) bool {
+			if fl, ok := n.(*ast.FuncLit); ok && ast.Node(fl) != u.Node {
+				return false
+			}
+			if call, ok := n.(*ast.CallExpr); ok {
+				if fn, _ := typeutil.Callee(info, call).(*types.Func); fn != nil && fn.Origin() == target {
+					out = call
+				}
+			}
+			return true
+		})
+		return out
+	}
+	if c.Action.Node == nil {
+		return flow.FuncUnit{}, nil, nil
+	}
+	if call := find(c.Action); call != nil {
+		return c.Action, call, nil
+	}
+	for _, u := range ix.closure([]flow.FuncUnit{c.Action}) {
+		if u.Node == c.Action.Node {
+			continue
+		}
+		call := find(u)
+		if call == nil {
+			continue
+		}
+		// the call in the action that leads there (direct callee only; deeper chains are reported by the caller as not found)
+		var via *ast.CallExpr
+		if fd, ok := u.Node.(*ast.FuncDecl); ok {
+			obj := u.Pkg.TypesInfo.Defs[fd.Name]
+			ast.Inspect(c.Action.Node, func(n ast.Node) bool {
+				if cc, ok := n.(*ast.CallExpr); ok {
+					if fn, _ := typeutil.Callee(c.Pkg.TypesInfo, cc).(*types.Func); fn != nil && types.Object(fn) == obj {
+						via = cc
+					}
+				}
+				return true
+			})
+		}
+		if via != nil {
+			return u, call, via
+		}
+	}
+	return flow.FuncUnit{}, nil, nil
+}
+
+// unitBody returns the body of a function unit (literal or declaration).
+func unitBody(u flow.FuncUnit) *ast.BlockStmt {
+	switch n := u.Node.(type) {
+	case *ast.FuncLit:
+		return n.Body
+	case *ast.FuncDecl:
+		return n.Body
+	}
+	return nil
+}
